@@ -61,10 +61,10 @@ T.update({
     'C10': dict(engine='declmc', technique="bounded-exhaustive enumeration of bitenum declarations (all discriminant sets and orders for N<=3), rustc verdict vs reference predicate in both directions",
                 text="Every discriminant set drawn from [0, 2^N+1] for N in {1,2,3} in several/all declaration orders x every exhaustive form and spelling x cfg'd variants, duplicates, malformed variants, storage boundaries up to u64 and unsupported sizes; accepted valid enums are recompiled with both conversions used.",
                 ref="DESIGN.md 6/C10", note=DECL_NOTE),
-    'C14': dict(engine='declmc', technique="bounded-exhaustive enumeration of layouts x builder call sequences; rustc's verdict on every probe program compared with a reference type-state automaton (E0599 required for rejections)",
+    'C14': dict(engine='declmc', technique="bounded-exhaustive enumeration of layouts x builder call sequences; rustc's verdict on every probe program compared with a reference type-state automaton",
                 text="Builder existence over every struct of 1-3 fields on u2 (u3 partly; fully in thorough) with every access x default, plus families for overlapping array elements (adjacent and not), self-overlapping range lists, gaps and declared-width completeness; type-state over the full chain, every prefix, omission, swap, duplicate and, for representative layouts, every call sequence up to length k+1.",
                 ref="DESIGN.md 6/C14", note=DECL_NOTE),
-    'C17': dict(engine='declmc', technique="bounded-exhaustive enumeration of field kind x access x base; presence probes must compile, absence probes must fail with E0599",
+    'C17': dict(engine='declmc', technique="bounded-exhaustive enumeration of field kind x access x base; presence probes must compile, absence probes must be rejected by rustc",
                 text="Every field kind (14-16 kinds incl. arrays, multi-range, enums, Option<enum>, nested) x access {r,w,rw,none} x bases x neighbourhood; getter / with_ / set_ / builder-step probes compared with the API reference model.",
                 ref="DESIGN.md 6/C17", note=DECL_NOTE),
     'C19': dict(engine='regmc', technique="explicit-state enumeration of all raw values (N<=12/16) x debug layouts; {:?} and {:#?} text compared with a derive(Debug) twin filled from the reference register",
